@@ -59,3 +59,24 @@ Example shadow_example :
   sget (fun _ _ => []) (SCombine inner (SCombine data glob)) [122] = Found (VStr [52]) /\
   sget (fun _ _ => []) (SCombine inner (SCombine data glob)) [119] = Absent.
 Proof. vm_compute. repeat split; reflexivity. Qed.
+
+(* ---- END TO END (Proofs/EndToEndDirectives.v, session 3): the source
+   <p :with=Q v := ${s} Q><b :text=Q${v}Q>1</b></p><i :text=Q${v}Q>2</i>  loads and, for EVERY string s: when the data does not bind v
+   the descendant <b> sees the binding and the SIBLING <i> does not (the render fails there with the no-such-value cause after
+   writing exactly <p><b>escape(s)</b></p><i>); when the data binds v to u, the inner binding shadows it inside the element
+   and the outer one is back for the sibling. *)
+From Coq Require Import List NArith ZArith Bool Lia Arith String Ascii.
+From Tpl Require Import Html.Exec Html.Manager Gen.Facts Proofs.ExecSpec Proofs.RenderPlain Proofs.RangeProps Proofs.FuelMono
+  Proofs.ReadbackExample Proofs.EndToEnd.
+Import ListNotations.
+Open Scope N_scope.
+From Tpl Require Import Proofs.EndToEndDirectives.
+Theorem e2e_with_source_to_output : loads_and src_with (fun tp =>
+  forall (s : str) (t : tbl) (st : rst) (fuel : nat), r_budget st = None -> (3 <= fuel)%nat ->
+  bx_execute bx_mgr fuel tp (VMap [(s2l "s", VStr s)]) t st =
+    (s2l "<p><b>" ++ escape s ++ s2l "</b></p><i>", RErr (RC CNoSuchValue), t, st) /\
+  forall u : str,
+  bx_execute bx_mgr fuel tp (VMap [(s2l "s", VStr s); (s2l "v", VStr u)]) t st =
+    (s2l "<p><b>" ++ escape s ++ s2l "</b></p><i>" ++ escape u ++ s2l "</i>", ROk, t, st)).
+Proof. exact EndToEndDirectives.with_source_to_output. Qed.
+Print Assumptions e2e_with_source_to_output.
